@@ -271,3 +271,12 @@ Theorem C03_ndebug_unprotected :
     In C03InvalidState (snd (c03_run true false c03_init ops)) /\ existsb c03_del (c03_local st') = false.
 Proof. exact c03_ndebug_unprotected_lemma. Qed.
 Print Assumptions C03_ndebug_unprotected.
+
+(* ==== dimension audit round ==== *)
+Example C03_dimension_ops_nonvacuous :
+  let st := fst (c03_run true false c03_init [C03Begin; C03Add 7 3 0 false; C03Add 3 1 0 false; C03End]) in
+  c03_readd_op (c03_local st) 1 = C03Add 7 3 0 false /\
+  snd (c03_run true false st [C03Begin; c03_readd_op (c03_local st) 1; C03End; C03Iterate; C03SetEq 0; C03SetEq 1; C03SetEq 7; C03SetEq 8]) =
+    [C03Ok; C03Ok; C03Ok; C03List [C03Pair 3 1 0 false false; C03Pair 7 3 0 false false; C03Pair 7 3 0 false false];
+     C03Bits [true; false]; C03Bits [false; true]; C03Bits [true; false]; C03Bits [true; false]].
+Proof. vm_compute. split; reflexivity. Qed.
